@@ -177,7 +177,7 @@ def _compute_dspeciesdt_grid(system,
     species_index = system.network.get_species_index(species)
     species_label = system.network.species[species_index].label
     
-    d = 0
+    d = UnitValue(0, "molecule/s")
     for reaction in system.network.reactions :
         rates = compute_reaction_rates(system, reaction, position, state, units_system)
         d += (rates[0] - rates[1]) * (reaction.get_product_stoichiometry(species_label)-reaction.get_substrate_stoichiometry(species_label))
@@ -217,7 +217,7 @@ def _compute_dspeciesdt_graph(system,
     species_label = system.network.species[species_index].label
     position = system.space.get_cell_index(position)
     
-    d = 0
+    d = UnitValue(0, "molecule/s")
     for reaction in system.network.reactions :
         rates = compute_reaction_rates(system, reaction, position, state, units_system)
         d += (rates[0] - rates[1]) * (reaction.get_product_stoichiometry(species_label)-reaction.get_substrate_stoichiometry(species_label))
